@@ -94,6 +94,32 @@ CHECKS["C09"] = dict(
     ],
 )
 
+TYPES = MOD + "/types"
+UTIL = MOD + "/util"
+
+CHECKS["C20"] = dict(
+    level_text="Within the bounds the solver shows for the hand-written (vtproto) codec: encode/decode round trip with full-width numeric fields, byte-for-byte equality with an independent proto3 reference encoder, and for every input byte string up to N bytes that decoding returns without panic or out-of-range access, allocates no more than the input, and never aliases the input; and for the length-prefixed stream that packets are read back identical under every fragmentation.",
+    level_note="Bounds: one field at a time over all its varint size classes; all fields together restricted to {0, one-byte, maximal} classes; strings <=2 bytes; <=1 xattr; decoder inputs of <=3 (quick) / <=5 (thorough) arbitrary bytes; two packets per stream with <=2 data bytes. The reflection-based protobuf runtime is not encoded: interoperability with it rests on the reference encoder being proto3-conformant. math/bits.Len* is an engine intrinsic (threshold chain). " + BASE_TRUST,
+    assumptions=["google.golang.org/protobuf runtime, UnmarshalVTUnsafe and allocation driven by a hostile 4-byte frame length in RecvMsg are outside the claim",
+                 "sync.Pool is modelled as LIFO reuse (a Put buffer is handed out again by the next Get)"],
+    obligations=
+        [ob("VH_C20_stat_field", dict(F=f), pkg=TYPES, covers=["done"], bounds="Stat field %d fully symbolic" % f) for f in (2, 3, 4, 5, 6, 8, 9)] +
+        [ob("VH_C20_stat_field", dict(F=f, L=2), pkg=TYPES, covers=["done"], bounds="Stat string field %d, 2 arbitrary bytes" % f) for f in (1, 7)] +
+        [ob("VH_C20_stat_field", dict(F=10, L=1, L2=1), pkg=TYPES, covers=["done"], bounds="one xattr, 1-byte key and value"),
+         ob("VH_C20_stat_all", dict(L=1), T, pkg=TYPES, covers=["done"], bounds="all Stat fields, numeric classes {0,1-byte,max}"),
+         ob("VH_C20_packet", dict(D=1), Q, pkg=TYPES, covers=["done"], bounds="type/id symbolic, 1 data byte, optional nested stat"),
+         ob("VH_C20_packet", dict(D=2), T, pkg=TYPES, covers=["done"], bounds="type/id symbolic, 2 data bytes, optional nested stat"),
+         ] +
+        [ob("VH_C20_decode_packet", dict(N=n), Q, pkg=TYPES, covers=(["rejected"] if n > 0 else []) + (["accepted"] if n != 1 else []), bounds="all byte strings of length %d" % n) for n in range(0, 4)] +
+        [ob("VH_C20_decode_stat", dict(N=n), Q, pkg=TYPES, covers=(["rejected"] if n > 0 else []) + (["accepted"] if n != 1 else []), bounds="all byte strings of length %d" % n) for n in range(0, 4)] +
+        [ob("VH_C20_decode_packet", dict(N=n), T, pkg=TYPES, covers=["rejected", "accepted"], bounds="all byte strings of length %d" % n) for n in (4, 5)] +
+        [ob("VH_C20_decode_stat", dict(N=n), T, pkg=TYPES, covers=["rejected", "accepted"], bounds="all byte strings of length %d" % n) for n in (4, 5)] +
+        [ob("VH_C20_framing", dict(D1=0, D2=0, ID=0), pkg=UTIL, covers=["done"], bounds="2 packets (symbolic type, possibly empty), every fragmentation of the <=12 byte stream"),
+         ob("VH_C20_framing", dict(D1=1, D2=0, ID=0), T, pkg=UTIL, covers=["done"], bounds="2 packets (1 and 0 data bytes), every fragmentation"),
+         ob("VH_C20_framing", dict(D1=0, D2=0, ID=1), T, pkg=UTIL, covers=["done"], bounds="2 packets with symbolic ids (1- and 5-byte varints), every fragmentation"),
+        ],
+)
+
 NOT_APPLICABLE = {
     "C08": "quantifies over schedules and includes data-race freedom and non-overlap of stream calls; the hand-written SSA executor runs goroutines under one cooperative schedule and cannot enumerate interleavings or observe races, and no Go engine that can is installed (DESIGN.md §7)",
 }
